@@ -80,6 +80,7 @@ pub fn predicate_pushdown_rules() -> Vec<Rewrite> { vec![
         "(join ?type ?cond2 (filter ?cond1 ?left) ?right)"
         if not_depend_on("?cond1", "?right")
         if all_depend_on("?cond1", "?left")
+        if all_depend_on2("?cond2", "?left", "?right")
         if can_filter_left_input("?type")
     ),
     rw!("pushdown-join-condition-left-1";
@@ -94,6 +95,7 @@ pub fn predicate_pushdown_rules() -> Vec<Rewrite> { vec![
         "(join ?type ?cond2 ?left (filter ?cond1 ?right))"
         if not_depend_on("?cond1", "?left")
         if all_depend_on("?cond1", "?right")
+        if all_depend_on2("?cond2", "?left", "?right")
         if can_filter_right_input("?type")
     ),
     rw!("pushdown-join-condition-right-1";
@@ -530,6 +532,24 @@ fn all_depend_on(expr: &str, plan: &str) -> impl Fn(&mut EGraph, Id, &Subst) -> 
     move |egraph, _, subst| {
         let used = used(egraph, subst[expr]);
         let produced = produced(egraph, subst[plan]).collect();
+        used.is_subset(&produced)
+    }
+}
+
+/// Returns true if the columns used in `expr` are produced by `left` or `right`.
+///
+/// The class of a condition that folds to `false` uses no columns, yet it also holds
+/// `(and false c)` for every `c` it was built from: a conjunct taken out of such a class
+/// may name columns that were pruned from both inputs.
+fn all_depend_on2(expr: &str, left: &str, right: &str) -> impl Fn(&mut EGraph, Id, &Subst) -> bool {
+    let expr = var(expr);
+    let left = var(left);
+    let right = var(right);
+    move |egraph, _, subst| {
+        let used = used(egraph, subst[expr]);
+        let produced = produced(egraph, subst[left])
+            .chain(produced(egraph, subst[right]))
+            .collect();
         used.is_subset(&produced)
     }
 }
